@@ -24,6 +24,7 @@
 //! `RcRecursion`/`ArcRecursion` — `Err` and the correct topology are both accepted
 //! there, a silently different graph is a violation.
 
+mod child;
 mod fam;
 mod payload;
 mod spec;
@@ -332,6 +333,9 @@ struct CaseCtx<'a> {
     run: &'a Run,
     spec: &'a Spec,
     so: usize,
+    /// outcome of `to_string_with_options` obtained in a child process (cases whose
+    /// serialisation is not executed on a worker thread, see `child.rs`)
+    pre_text: Option<Result<Result<String, String>, String>>,
 }
 
 macro_rules! family_check {
@@ -379,20 +383,22 @@ macro_rules! family_check {
             let has_cycle = spec.has_cycle();
 
             // ---- serialise
-            if $label == "arcrec" && c0.weak_before_strong > 0 && spec.strong_reference_to_open_definition() {
-                // Not executed: `ArcRecursive::serialize` takes the node's mutex before it knows that
-                // only an alias will be written, and an outer frame of the same to_string call
-                // (the definition emitted through an `ArcRecursion`) still holds it -> the thread
-                // blocks forever. Predicted from the serialisation-order model, never timed.
-                report(run, 
-                    "C14:arcrec:serialize-relocks-mutex-held-by-open-definition",
-                    case(),
-                    "to_string would deadlock: a strong ArcRecursive reference is reached while the definition of its target is being written (through an ArcRecursion met before the strong owner); ser.rs `impl Serialize for ArcRecursive` locks unconditionally",
-                );
+            if $label == "arcrec" && cx.pre_text.is_none() && c0.weak_before_strong > 0 && spec.strong_reference_to_open_definition() {
+                // A strong ArcRecursive reference is reached while the definition of its target is being
+                // written (through an ArcRecursion met before the strong owner). If `Serialize for
+                // ArcRecursive` takes the node's mutex at that point the calling thread blocks for ever,
+                // so this serialisation is executed in a child process (end of the run, `child.rs`) and
+                // the rest of this case is checked on the text the child returns.
+                child::defer(spec, so);
+                cnt("child/cases_deferred", 1);
                 return;
             }
             run.eval();
-            let text = match catch(|| serde_saphyr::to_string_with_options(&doc, ser_opts(so))) {
+            let ser_outcome: Result<Result<String, String>, String> = match &cx.pre_text {
+                Some(r) => r.clone(),
+                None => catch(|| serde_saphyr::to_string_with_options(&doc, ser_opts(so)).map_err(|e| e.to_string())),
+            };
+            let text = match ser_outcome {
                 Err(p) => {
                     report(run, &format!("C14:panic:{}", panic_site(&p)), case(), p);
                     return;
@@ -697,7 +703,11 @@ fn is_rec(f: &str) -> bool {
 }
 
 fn check_case(run: &Run, family: &str, spec: &Spec, so: usize) {
-    let cx = CaseCtx { run, spec, so };
+    check_case_with(run, family, spec, so, None)
+}
+
+fn check_case_with(run: &Run, family: &str, spec: &Spec, so: usize, pre_text: Option<Result<Result<String, String>, String>>) {
+    let cx = CaseCtx { run, spec, so, pre_text };
     match family {
         "rc" => check_rc(&cx),
         "arc" => check_arc(&cx),
@@ -710,6 +720,9 @@ fn check_case(run: &Run, family: &str, spec: &Spec, so: usize) {
 fn unused(_: &Canon) {}
 
 fn main() {
+    if std::env::args().nth(1).as_deref() == Some("child-ser") {
+        child::child_main();
+    }
     let run = Run::from_args("C14");
     if let Some(rep) = run.is_replay() {
         let case = rep["case"].clone();
@@ -733,6 +746,7 @@ fn main() {
                 let fam = case["family"].as_str().unwrap_or("rc").to_string();
                 let so = case["ser_opts"].as_u64().unwrap_or(0) as usize;
                 check_case(&run, &fam, &spec, so);
+                child::run_deferred(&run);
             }
         }
         run.finish(Finish::new("replay"));
@@ -819,6 +833,9 @@ fn main() {
         }
     });
 
+    // ---- serialisations that must not run on a worker thread: executed in child processes
+    child::run_deferred(&run);
+
     flush_counters(&run);
     for (sig, n) in SIG_HITS.lock().unwrap().iter() {
         run.count(&format!("signature_hits/{sig}"), *n);
@@ -837,6 +854,7 @@ fn main() {
     .exhaustive(scope)
     .assume("the raw saphyr-parser event stream is the ground truth for anchors/aliases in the emitted text")
     .assume("budget and alias limits switched off for reading back; graphs whose alias-free expansion exceeds 100k events are skipped")
+    .assume("a child process that has not exited, sleeps (state S) and shows the same utime+stime in 3 samples >= 1 s apart while producing no output is blocked for ever (deadlock); one that still burns CPU is inconclusive")
     .assume("unspecified (Err or correct topology both accepted): weak serialised before its strong target, cycles through the non-recursive weak wrappers, dangling RcRecursion/ArcRecursion")
     .min_nontrivial(if tier == Tier::Quick { 5_000 } else { 50_000 });
     run.finish(fin);
